@@ -8,6 +8,11 @@ import HtpModel.Lemmas.CFunsCmp
 import HtpModel.Lemmas.CFunsNocase
 import HtpModel.Lemmas.CFunsSearch
 import HtpModel.Lemmas.CFunsLine
+import HtpModel.Lemmas.CFunsNum
+import HtpModel.Lemmas.CFunsChunked
+import HtpModel.Lemmas.CFunsNorzero
+import HtpModel.Lemmas.CFunsSearchNocase
+import HtpModel.Lemmas.CFunsRing
 
 namespace Htp.C17
 open Htp.Ring
@@ -339,7 +344,7 @@ every input, that every read stays inside the arrays handed in, and that the loo
 the theorems above about the model functions they are statements about the code as it is now; a change to one of these C functions
 changes the generated term and the proof stops checking. -/
 section Translated
-open Htp.Gen.C Htp.CSem Htp.Bstr
+open Htp.Gen.C Htp.CSem Htp.Bstr Htp.Num
 
 /-- every function on the translator's list is inside the translated subset on this run -/
 theorem C17_translator_complete : Htp.Gen.C.untranslated = [] := by decide
@@ -400,6 +405,70 @@ theorem C17_translated_chomp (d : Bytes) (h1 : d.length < 9223372036854775808) (
   ⟨Htp.CFuns.htp_chomp_eq d h1 fuel hf, Htp.CFuns.chomp_prefix d⟩
 
 example : (htp_chomp 7 (b!"abc\r\n\n") 6).map (fun r => (r.1, r.2.len)) = some (2, 3) := by decide +kernel
+
+/-- **C17 (search family, translated code)**: the case-insensitive search and the two NUL-skipping functions - including the `j--; continue`
+    of the inner loop, whose `size_t` wrap at j = 0 is undone by the for-increment - return the model's values -/
+theorem C17_translated_search_family (hay needle : Bytes) (h1 : hay.length ≤ 2147483648) (fuel : Nat) (hf : hay.length < fuel) :
+    (bstr_util_mem_index_of_mem_nocase fuel hay needle hay.length needle.length).map (·.1)
+      = some (match indexOfMemNocase hay needle with | some i => (i : Int) | none => -1) ∧
+    (bstr_util_mem_index_of_mem_nocasenorzero fuel hay needle hay.length needle.length).map (·.1)
+      = some (match indexOfMemNocaseNorzero hay needle with | some i => (i : Int) | none => -1) :=
+  ⟨Htp.CFuns.bstr_util_mem_index_of_mem_nocase_eq hay needle h1 fuel hf,
+   Htp.CFuns.bstr_util_mem_index_of_mem_nocasenorzero_eq hay needle h1 fuel hf⟩
+
+theorem C17_translated_cmp_mem_nocasenorzero (d1 d2 : Bytes) (h1 : d1.length < 9223372036854775808) (h2 : d2.length < 9223372036854775808)
+    (fuel : Nat) (hf : d1.length < fuel) :
+    (bstr_util_cmp_mem_nocasenorzero fuel d1 d2 d1.length d2.length).map (·.1) = some (cmpMemNocaseNorzero d1 d2) :=
+  Htp.CFuns.bstr_util_cmp_mem_nocasenorzero_eq d1 d2 h1 h2 fuel hf
+
+/-- **C17 (bstr_util_mem_to_pint, translated code)**: for every array `x ++ junk` handed in with length |x| (the true contract of a
+    (pointer, length) function), every base and every initial `*lastlen`, the C function as translated returns the model's value and `*lastlen`.
+    The two stores `rval *= base; rval += d` go through the int64 wrap in the translated term; the proof shows they never wrap BECAUSE of the guard
+    `(INT64_MAX - d) / base < rval -> return -2` - so the function reports -2 instead of wrapping, for all inputs. -/
+theorem C17_translated_mem_to_pint (x junk : Bytes) (base : Nat) (l0 : Int) (hx : x.length < 9223372036854775808)
+    (fuel : Nat) (hf : x.length < fuel) :
+    (bstr_util_mem_to_pint fuel (x ++ junk) x.length base l0).map (fun r => (r.1, r.2.lastlen))
+      = some ((memToPint x base).1, ((memToPint x base).2 : Int)) :=
+  Htp.CFuns.bstr_util_mem_to_pint_eq x junk base l0 hx fuel hf
+
+/-- **C17 (htp_parse_positive_integer_whitespace, translated code)** (with `C17_ppiw_value` this is the mathematical value of the digits) -/
+theorem C17_translated_ppiw (x junk : Bytes) (base : Nat) (hx : x.length < 9223372036854775808) (fuel : Nat) (hf : x.length < fuel) :
+    (htp_parse_positive_integer_whitespace fuel (x ++ junk) x.length base).map (·.1) = some (parsePositiveIntegerWhitespace x base) :=
+  Htp.CFuns.htp_parse_positive_integer_whitespace_eq x junk base hx fuel hf
+
+/-- **C17 (port, translated code: exact value or an error, never a wrapped value)**: htp_parse_port (static in htp_util.c) always returns, and
+    either `*port = -1` with `*invalid = 1`, or `*port` is the exact unbounded value of the digits, that value lies in 1..65535 and `*invalid`
+    is untouched. The conversion `(int) port_parsed` is part of the translated term (`i32`), so a narrower variable type - seeded change C17e -
+    changes the term and this proof fails. -/
+theorem C17_translated_port_exact_or_error (d : Bytes) (p0 i0 : Int) (hd : d.length < 9223372036854775808) (fuel : Nat) (hf : d.length < fuel) :
+    ∃ r, htp_parse_port fuel d d.length p0 i0 = some r ∧
+      ((r.2.port = -1 ∧ r.2.invalid = 1) ∨
+       (r.2.port = parsePositiveIntegerWhitespace d 10 ∧ 1 ≤ r.2.port ∧ r.2.port ≤ 65535 ∧ r.2.invalid = i0)) :=
+  Htp.CFuns.htp_parse_port_exact_or_error d p0 i0 hd fuel hf
+
+/-- **C17 (htp_parse_chunked_length, translated code)**: three loops (one of them moves the data pointer), then the call of the translated
+    htp_parse_positive_integer_whitespace on the digit run with MORE bytes behind it - value and `*extension` are the model's -/
+theorem C17_translated_chunked_length (d : Bytes) (h1 : d.length < 9223372036854775808) (fuel : Nat) (hf : d.length + 1 < fuel) (e0 : Int) :
+    (htp_parse_chunked_length fuel d d.length e0).map (fun r => (r.1, r.2.extension))
+      = some ((parseChunkedLength d).1, if (parseChunkedLength d).2 then 1 else e0) := by
+  apply Htp.CFuns.htp_parse_chunked_length_eq _ d h1 fuel hf e0
+  intro fuel x junk base hl _ _ hfu
+  have hx : x.length < 9223372036854775808 := by
+    have : (x ++ junk).length = x.length + junk.length := List.length_append
+    omega
+  exact Htp.CFuns.htp_parse_positive_integer_whitespace_eq x junk base hx fuel (by omega)
+
+/-- **C17 (the ring buffer, translated code)**: htp_list_array_get / pop / push / replace / size / shift / clear as translated from htp_list.c
+    (struct fields passed one by one, `elements` a mutable array, realloc / malloc / the two memcpy calls of the growth step as array
+    operations), run one after the other from `htp_list_array_create(n)`, return for EVERY operation sequence the observations of a
+    double-ended sequence and end in a well-formed ring whose abstraction is that sequence - the refinement `ring_sim` carried over to the
+    code itself (capacity below 2^61 so that `max_size * 2` does not wrap; allocations succeed, failure is `htp_list_array_push_nomem`).
+    Proving the step for `replace` is what found S43 (`Lemmas/CFunsRing.lean`, section 5). -/
+theorem C17_translated_ring_sim (n : Nat) (hn : 0 < n) (ops : List Htp.CFuns.COp)
+    (hK : n + ops.length < 2305843009213693952) :
+    ∃ f, Htp.CFuns.runC (Htp.CFuns.fieldsOf (Htp.Ring.create n)) ops = some (f, (Htp.CFuns.runS [] ops).2) ∧
+      Htp.Ring.WF (Htp.CFuns.ringOf f) ∧ Htp.Ring.abs (Htp.CFuns.ringOf f) = (Htp.CFuns.runS [] ops).1 :=
+  Htp.CFuns.cring_sim_fresh n hn ops (fun _ _ => by unfold Htp.CFuns.COp.ok; split <;> trivial) hK
 
 /-- non-vacuity: the translated terms run -/
 example : (bstr_util_cmp_mem 3 (b!"ab") (b!"ac") 2 2).map (·.1) = some (-1) := by decide +kernel
